@@ -1,4 +1,5 @@
 """C20 — Rasterisation marks exactly the bins a geometry covers, on the template's axes."""
+import copy
 import itertools
 import json
 from fractions import Fraction
@@ -748,6 +749,12 @@ def _general_case(ctx, rng, fix=None, prev_geoms=None):
     if spacing in ("half", "decimal"):
         inp["time_via"] = rng.choice(["array", "array", "array_step", "plain"])
         inp["freq_via"] = rng.choice(["array", "array", "array_step", "plain"])
+    if spacing == "half" and rng.random() < 0.3:
+        inp["freq_dtype"] = rng.choice(["int64", "int32"])      # frequency bins 0, 1, 2, ... as an integer index
+        if rng.random() < 0.5:
+            t = [float(2 * i) + (2.0 if reach == "below" else 0.0) for i in range(nt)]
+            inp["time_dtype"] = "int64"
+        ctx.tally("general-axis:integer-index")
     ctx.tally("general-axis:" + spacing)
     gtype = fix.get("gtype")
     k = rng.choice([0, 1, 1, 2, 2, 3, 4]) if gtype is None else rng.choice([1, 1, 2, 3])
@@ -998,13 +1005,14 @@ def _edge_cases(ctx, n):
                "all_touched": rng.choice([None, False, True]), "contents": 0, "time_via": via, "freq_via": via}
 
 
-def _ring(n, ct, cf, rt, rf, q=64):
-    """a simple closed polygon ring with n vertices around (ct, cf) (vertices on a 1/q grid, strictly increasing angle)"""
+def _ring(n, ct, cf, rt, rf, q=64, rng=None):
+    """a simple closed polygon ring with n vertices around (ct, cf): star-shaped, vertices on a 1/q grid, the radius
+    alternating between the full one and a (random) smaller one"""
     import math
     pts = []
     for i in range(n):
         a = 2 * math.pi * i / n
-        r = 1.0 if i % 2 == 0 else 0.93
+        r = 1.0 if i % 2 == 0 else (0.93 if rng is None else rng.uniform(0.55, 0.95))
         p = [Fraction(round((ct + rt * r * math.cos(a)) * q), q), Fraction(round((cf + rf * r * math.sin(a)) * q), q)]
         if not pts or p != pts[-1]:
             pts.append(p)
@@ -1028,18 +1036,25 @@ def _size_cases(ctx):
         if ngeo < 100:
             out.append({**base, "time_first": rng.random() < 0.5, "geoms": geoms, "values": 3, "values_tuple": False})
         ctx.tally(f"sizes:geometries:{ngeo}")
-    for nv in (16, 17, 256, 257, 1023, 1024, 1025):
-        ring = _ring(nv, 2.0, 2.5, 1.9, 2.4, q=4096)
-        hole = _ring(max(nv // 8, 3), 2.0, 2.5, 0.5, 0.6, q=4096)
-        line = [[rat(Fraction(i * 4, nv)), rat(Fraction(5 * (i % 7), 7))] for i in range(nv)]
-        mpts = [[rat(Fraction((i * 37) % 400, 100)), rat(Fraction((i * 11) % 550, 100))] for i in range(nv)]
-        geoms = [{"type": "Polygon", "coordinates": [ring, hole]}, {"type": "LineString", "coordinates": line},
-                 {"type": "MultiPoint", "coordinates": mpts}]
+    wt, wf = [i * 0.5 for i in range(16)], [i * 1.0 for i in range(12)]
+    wide = {**base, "time": rats(wt), "freq": rats(wf)}
+    for nv in (16, 17, 256, 257, 1024, 1025) + ((1023,) if ctx.thorough() else ()):
+        geoms = []
+        for _p in range(3 if nv < 1000 or ctx.thorough() else 1):   # polygons with nv vertices, jagged outline, with a hole
+            ct, cf = rng.uniform(2.5, 5.0), rng.uniform(3.5, 7.5)
+            ring = _ring(nv, ct, cf, rng.uniform(1.5, 2.4), rng.uniform(2.0, 3.4), q=4096, rng=rng)
+            hole = _ring(max(nv // 8, 3), ct, cf, 0.4, 0.5, q=4096)
+            g = {"type": "Polygon", "coordinates": [ring, hole]}
+            if gen_geom.is_simple(g):
+                geoms.append(g)
+        line = [[rat(Fraction(i * 7, nv)), rat(Fraction(11 * ((i * 5) % 7), 7))] for i in range(nv)]
+        mpts = [[rat(Fraction((i * 37) % 750, 100)), rat(Fraction((i * 11) % 1150, 100))] for i in range(nv)]
+        geoms += [{"type": "LineString", "coordinates": line}, {"type": "MultiPoint", "coordinates": mpts}]
         for g in geoms:
-            out.append({**base, "time_first": rng.random() < 0.5, "geoms": [g], "values": [2],
+            out.append({**wide, "time_first": rng.random() < 0.5, "geoms": [g], "values": [2],
                         "all_touched": rng.random() < 0.5})
-        ctx.tally(f"sizes:vertices:{nv}")
-    for nbins in (1023, 1024, 1025):
+        ctx.tally(f"sizes:vertices:{nv}", len(geoms))
+    for nbins in (1023, 1024, 1025) if ctx.thorough() else (1024, 1025):
         for kind in ("dyadic", "decimal", "irregular"):
             if kind == "dyadic":
                 big = [i * 0.25 for i in range(nbins)]
@@ -1063,13 +1078,71 @@ def _size_cases(ctx):
 # session is the answer to the k-th request alone); arguments are snapshotted around every call; results are
 # poisoned by the caller and re-read after later calls.
 TPL_KEYS = ("time", "freq", "time_first", "extra_dim", "contents", "time_via", "freq_via", "time_range", "freq_range",
-            "time_step", "freq_step", "tpl_how")
+            "time_step", "freq_step", "tpl_how", "time_dtype", "freq_dtype")
 H_REUSE = ("same_template", "same_geoms", "tpl_coords_assign", "tpl_data_inplace", "geom_assign", "geom_inplace",
            "geom_copy_update", "geom_deep_copy_update", "list_inplace")
 
 
 def _same(a, b, keys):
     return all(a.get(k) == b.get(k) for k in keys)
+
+
+def _tpl_assignable(inp):
+    return inp.get("tpl_how") in (None, "int_data", "coords_rev")
+
+
+def _h_applicable(prev, inp):
+    """the ways in which the live objects of the previous step can be turned into the arguments of this step"""
+    hows = []
+    same_tpl = _same(prev, inp, TPL_KEYS)
+    same_geoms = prev["geoms"] == inp["geoms"] and _same(prev, inp, ("geom_build", "geoms_seq"))
+    if same_tpl:
+        hows += ["same_template", "tpl_data_inplace"]
+    elif (_same(prev, inp, ("time_first", "extra_dim", "tpl_how")) and _tpl_assignable(inp)
+          and len(prev["time"]) == len(inp["time"]) and len(prev["freq"]) == len(inp["freq"])):
+        hows += ["tpl_coords_assign", "tpl_coords_assign"]
+    if same_geoms:
+        hows.append("same_geoms")
+    elif any(a["type"] == b["type"] for a, b in zip(prev["geoms"], inp["geoms"])):
+        hows += ["geom_assign", "geom_inplace", "geom_copy_update", "geom_deep_copy_update"]
+    if prev.get("geoms_seq") != "tuple" and inp.get("geoms_seq") != "tuple" and not same_geoms:
+        hows.append("list_inplace")
+    return hows
+
+
+def _h_sequences(ctx, rng, cases, n, length=(3, 5)):
+    """n histories: x, a neighbour of x, x again, ...; a step reuses the live objects of the step before in a way
+    that applies to the pair (every object whose content is unchanged stays the same Python object)"""
+    out = []
+    for i in range(n):
+        x = cases[i % len(cases)]
+        try:
+            neigh = _h_variants(x, rng)
+        except Exception:  # noqa: BLE001 - a case without neighbours still has other cases
+            neigh = []
+        seq, prev = [{"inp": copy.deepcopy(x)}], x
+        L = rng.randint(*length)
+        while len(seq) < L:
+            y = rng.choice(neigh) if neigh and rng.random() < 0.85 else rng.choice(cases)
+            for z in ([y, x] if rng.random() < 0.7 else [y]):
+                if len(seq) >= L:
+                    break
+                st = {"inp": copy.deepcopy(z)}
+                hows = _h_applicable(prev, z)
+                changing = [h for h in hows if h not in ("same_template", "same_geoms", "tpl_data_inplace")]
+                if changing and rng.random() < 0.7:          # an object that was used, is changed and is used again
+                    st["reuse"] = rng.choice(changing)
+                elif hows and rng.random() < 0.7:
+                    st["reuse"] = rng.choice(hows)
+                seq.append(st)
+                prev = z
+        for st in seq[:-1]:
+            if rng.random() < 0.35:
+                st["poison"] = True
+        for st in seq:
+            ctx.tally("history:" + (st.get("reuse") or "fresh") + ("+poison" if st.get("poison") else ""))
+        out.append({"seq": seq})
+    return out
 
 
 def _h_build(inp):
@@ -1102,22 +1175,23 @@ def _set_in_place(old, new):
 
 def _h_modify(args, inp, how):
     """the live objects of the previous step turned into the arguments of this step: nothing a template, a geometry
-    or a list remembered from its earlier use may survive the change"""
+    or a list remembered from its earlier use may survive the change.  Whatever is unchanged between the two steps
+    stays the same Python object (the template when only geometries change, the geometries when only the template
+    changes), so that anything keyed by identity meets changed content"""
     import numpy as np
     prev = args["inp"]
-    tpl, geoms = None, None
-    if how in ("same_template", "tpl_data_inplace") and _same(prev, inp, TPL_KEYS):
-        tpl = args["tpl"]
-        if how == "tpl_data_inplace":            # the template's contents are not part of the request
-            tpl.values[...] = np.random.RandomState(len(inp["geoms"]) + 7).uniform(-9, 9, size=tpl.shape)
-    elif how == "tpl_coords_assign" and _same(prev, inp, ("time_first", "extra_dim", "tpl_how")) \
-            and len(prev["time"]) == len(inp["time"]) and len(prev["freq"]) == len(inp["freq"]) \
-            and inp.get("tpl_how") in (None, "int_data", "coords_rev"):
+    if how not in _h_applicable(prev, inp):
+        return None
+    same_tpl = _same(prev, inp, TPL_KEYS)
+    same_geoms = prev["geoms"] == inp["geoms"] and _same(prev, inp, ("geom_build", "geoms_seq"))
+    tpl = args["tpl"] if same_tpl else None
+    geoms = args["geoms"] if same_geoms else None
+    if how == "tpl_data_inplace":                # the template's contents are not part of the request
+        tpl.values[...] = np.random.RandomState(len(inp["geoms"]) + 7).uniform(-9, 9, size=tpl.shape).astype(tpl.dtype)
+    elif how == "tpl_coords_assign":
         tpl = args["tpl"]                        # the same DataArray object with its coordinates replaced
         tpl.coords["time"] = B.axis_variable(inp, "time")
         tpl.coords["frequency"] = B.axis_variable(inp, "freq")
-    elif how == "same_geoms" and prev["geoms"] == inp["geoms"] and _same(prev, inp, ("geom_build", "geoms_seq")):
-        geoms = args["geoms"]
     elif how in ("geom_assign", "geom_inplace", "geom_copy_update", "geom_deep_copy_update", "list_inplace"):
         fresh = B.geometries(inp)                # the validated form of the new content
         old = list(args["geoms"])
@@ -1135,13 +1209,11 @@ def _h_modify(args, inp, how):
                 out.append(o)
             else:
                 out.append(o.model_copy(update={"coordinates": g.coordinates}, deep=(how == "geom_deep_copy_update")))
-        if how == "list_inplace" and isinstance(args["geoms"], list) and inp.get("geoms_seq") != "tuple":
+        if how == "list_inplace" and isinstance(args["geoms"], list):
             geoms = args["geoms"]
             geoms[:] = out                       # the caller's list object, refilled
         else:
             geoms = tuple(out) if inp.get("geoms_seq") == "tuple" else out
-    else:
-        return None
     kw = B.optional_args(inp)
     if how == "list_inplace" and isinstance(args["kw"].get("values"), list) and isinstance(kw.get("values"), list):
         vals = args["kw"]["values"]
@@ -1175,6 +1247,13 @@ def _h_variants(x, rng):
     if isinstance(x.get("values"), list) and len(x["values"]) == len(x["geoms"]) and x["geoms"]:
         out.append({**x, "values": [rng.choice(pool) for _ in x["geoms"]]})
         out.append({**x, "values": list(reversed(x["values"]))})
+    # the same geometry types with every vertex moved by one time / frequency step (in-place edits keep the nesting)
+    ts = (fl(x["time"])[1] - fl(x["time"])[0]) if len(x["time"]) > 1 else 0.5
+    fs = (fl(x["freq"])[1] - fl(x["freq"])[0]) if len(x["freq"]) > 1 else 0.5
+    if x["geoms"]:
+        for _w in range(2):                      # (twice: these are the neighbours in-place edits apply to)
+            out.append({**x, "geoms": [_shifted(g, ts, fs) for g in x["geoms"]]})
+            out.append({**x, "geoms": [_shifted(g, 2 * ts, 0.0) for g in x["geoms"]]})
     unsigned = x.get("dtype") == "uint8"
     out.append({**x, "fill": rng.choice([5, 7] if unsigned else [-1, 7, 5])})
     out.append({**x, "all_touched": not x.get("all_touched")})
@@ -1185,11 +1264,36 @@ def _h_variants(x, rng):
     out.append({**x, "values": None, "fill": None, "dtype": None, "all_touched": None, "call_as": "kw"})
     # the same geometries on another template of the same shape / on the transposed template
     out.append({**x, "time_first": not x["time_first"]})
-    out.append({**x, "time": rats([2 * c + 0.5 for c in fl(x["time"])]), "freq": rats([c / 2 + 1 for c in fl(x["freq"])]),
-                "time_via": "array", "freq_via": "array", "tpl_how": None})
+    scaled = {"time": rats([2 * c + 0.5 for c in fl(x["time"])]), "freq": rats([c / 2 + 1 for c in fl(x["freq"])]),
+              "time_via": "array", "freq_via": "array", "time_dtype": None, "freq_dtype": None}
+    out.append({**x, **scaled, "tpl_how": None})
+    for _w in range(2):                          # same kind of template object: its coordinates can be re-assigned
+        out.append({**x, **scaled})
     if len(x["time"]) != len(x["freq"]):
-        out.append({**x, "time": x["freq"], "freq": x["time"], "time_via": "array", "freq_via": "array", "tpl_how": None})
+        out.append({**x, "time": x["freq"], "freq": x["time"], "time_via": "array", "freq_via": "array", "tpl_how": None,
+                    "time_dtype": None, "freq_dtype": None})
     return out
+
+
+def _shifted(g, dt, df):
+    """the geometry translated by (dt, df): same type, same nesting, still valid"""
+    ty, c = g["type"], g["coordinates"]
+    mv = lambda p: [rat(float(frac(p[0])) + dt), rat(float(frac(p[1])) + df)]
+    if ty == "TimeStamp":
+        cc = rat(float(frac(c)) + dt)
+    elif ty == "TimeInterval":
+        cc = [rat(float(frac(v)) + dt) for v in c]
+    elif ty == "Point":
+        cc = mv(c)
+    elif ty == "BoundingBox":
+        cc = mv(c[:2]) + mv(c[2:])
+    elif ty in ("LineString", "MultiPoint"):
+        cc = [mv(p) for p in c]
+    elif ty in ("MultiLineString", "Polygon"):
+        cc = [[mv(p) for p in r] for r in c]
+    else:
+        cc = [[[mv(p) for p in r] for r in poly] for poly in c]
+    return {"type": ty, "coordinates": cc}
 
 
 def _integral(x):
@@ -1235,11 +1339,7 @@ def _stage_histories(ctx):
     (assignment, in place, model_copy) and used again, results edited by the caller, results re-read after later calls"""
     rng = ctx.rng
     base = _history_base(ctx, ctx.budget(60, 600))
-    hs = history.sequences(rng, base, ctx.budget(150, 1500), variants=_h_variants, reuse_hows=H_REUSE, poison=True)
-    for h in hs:
-        for st in h["seq"]:
-            ctx.tally("history:" + (st.get("reuse") or "fresh") + ("+poison" if st.get("poison") else ""))
-    ctx.run_cases(OPS["raster_history"], hs)
+    ctx.run_cases(OPS["raster_history"], _h_sequences(ctx, rng, base, ctx.budget(150, 1500)))
 
 
 def run(ctx):
@@ -1276,6 +1376,5 @@ def search(ctx, failures):
     ctx.run_cases(OPS["rasterize_all"], others)
     ctx.run_cases(OPS["rasterize_all"], _general_cases(ctx, 1500))
     ctx.run_cases(OPS["rasterize_all"], _edge_cases(ctx, 300))
-    ctx.run_cases(OPS["raster_history"], history.sequences(ctx.rng, _history_base(ctx, 80), 200, variants=_h_variants,
-                                                          reuse_hows=H_REUSE, poison=True))
+    ctx.run_cases(OPS["raster_history"], _h_sequences(ctx, ctx.rng, _history_base(ctx, 80), 200))
     ctx.run_cases(OPS["raster_monitor"], _monitor_cases(ctx, 300))
